@@ -87,21 +87,21 @@ def derived(vc):
     F = f.fields
     n, T, df, dt = p['fchans'], p['tchans'], p['df'], p['dt']
     g = lambda name: vc.run(lambda: vc.interp.getattr(f, name))
-    vc.ensure('C05/fmid/post', eq(g('fmid').value, (F['fmin'] + F['fmax']) / 2))
-    vc.ensure('C05/t_stop/post', eq(g('t_stop').value, F['t_start'] + T * dt))
+    vc.ensure('C05/fmid/post', okv(g('fmid'), lambda v: eq(v, (F['fmin'] + F['fmax']) / 2)))
+    vc.ensure('C05/t_stop/post', okv(g('t_stop'), lambda v: eq(v, F['t_start'] + T * dt)))
     # derived quantities are functions of the frame's *current* state: re-timing the frame (as Cadence.overwrite_times does) moves t_stop with it
     t_new = Real('t_start_after_retiming')
     vc.interp.setattr(f, 't_start', t_new)
-    vc.ensure('C05/t_stop/post/follows-a-re-timed-start', eq(g('t_stop').value, t_new + T * dt))
-    vc.ensure('C05/obs_length/post', eq(g('obs_length').value, T * dt))
+    vc.ensure('C05/t_stop/post/follows-a-re-timed-start', okv(g('t_stop'), lambda v: eq(v, t_new + T * dt)))
+    vc.ensure('C05/obs_length/post', okv(g('obs_length'), lambda v: eq(v, T * dt)))
     te = g('ts_ext')
     vc.ensure('C05/ts_ext/exc/none', te.ok)
     i = Int('i')
-    vc.ensure('C05/ts_ext/post/length', eq(te.value.shape[0], T + 1))
-    vc.ensure('C05/ts_ext/post/values', Implies(And(i >= 0, i <= T), eq(te.value.at((i,)), i * dt)))
+    vc.ensure('C05/ts_ext/post/length', okv(te, lambda v: eq(v.shape[0], T + 1)))
+    vc.ensure('C05/ts_ext/post/values', okv(te, lambda v: Implies(And(i >= 0, i <= T), eq(v.at((i,)), i * dt))))
     a, b = Int('a'), Int('b')
     dr = vc.call(FR + '.get_drift_rate', f, a, b)
-    vc.ensure('C05/get_drift_rate/post', eq(dr.value, (b - a) * df / (T * dt)))
+    vc.ensure('C05/get_drift_rate/post', okv(dr, lambda v: eq(v, (b - a) * df / (T * dt))))
     fq = vc.call(FR + '.get_frequency', f, a)
     vc.ensure('C05/get_frequency/post', eq(fq.value, F['fmin'] + a * df))
 
@@ -211,4 +211,4 @@ def axis_lengths_fp(vc):
         return
     vc.ensure('C05/axes-fp/post/ts-has-tchans-entries', And(f.fields['ts'].ndim == 1, eq(f.fields['ts'].shape[0], p['T'])))
     vc.ensure('C05/axes-fp/post/fs-has-fchans-entries', And(f.fields['fs'].ndim == 1, eq(f.fields['fs'].shape[0], p['n'])))
-    vc.ensure('C05/axes-fp/post/ts_ext-has-tchans+1-entries', eq(te.value.shape[0], p['T'] + 1))
+    vc.ensure('C05/axes-fp/post/ts_ext-has-tchans+1-entries', okv(te, lambda v: eq(v.shape[0], p['T'] + 1)))
